@@ -100,9 +100,9 @@ def gen_ops(rng, keys, nops, tag, weights=None):
         elif r < 0.40:
             ops.append(['get', k])
         elif r < 0.48:
-            ops.append(['getd', k, dflt()])
+            ops.append(['getd', k, dflt()] if rng.random() < 0.8 else ['getn', k])
         elif r < 0.55:
-            ops.append(['setdefault', k, val() if rng.random() < 0.7 else dflt()])
+            ops.append(['setdefault', k, val() if rng.random() < 0.7 else dflt()] if rng.random() < 0.9 else ['setdefaultn', k])
         elif r < 0.60:
             ops.append(['del', k])
         elif r < 0.64:
@@ -154,8 +154,17 @@ def _resolve_cur(op, state, variant):
     """'CUR' arguments of ==/!= mean: a plain dict equal to the current contents
     (variant 0) -- the comparison a user is most likely to make."""
     if op[0] in ('eq', 'ne') and op[1] == 'CUR':
+        if len(op) > 2 and op[2].replace('_reflected', '') in L.NOT_A_MAPPING:
+            return (op[0], [(('not', 'a', 'mapping'), 0)])
         return (op[0], list(M.contents(state).items()))
     return None
+
+
+def _compare_cur(c, op, mop):
+    try:
+        return ('ok', L.compare(c, op[0], mop[1], op[2] if len(op) > 2 else 'dict'))
+    except Exception as e:
+        return ('exc', type(e).__name__)
 
 
 def _run_prefix(case, n, spec):
@@ -167,7 +176,7 @@ def _run_prefix(case, n, spec):
     for op in case['ops'][:n]:
         mop = _resolve_cur(op, state, 0) or L.model_op(op)
         if mop[0] in ('eq', 'ne') and op[1] == 'CUR':
-            real = ('ok', L.compare(c, mop[0], mop[1], op[2] if len(op) > 2 else 'dict'))
+            real = _compare_cur(c, op, mop)
         else:
             real, post = L.exec_op(c, op, ctx)
         alts = M.apply(spec, state, mop)
@@ -204,10 +213,7 @@ def run_case(case):
     for i, op in enumerate(case['ops']):
         mop = _resolve_cur(op, state, 0) or L.model_op(op)
         if op[0] in ('eq', 'ne') and op[1] == 'CUR':
-            try:
-                real = ('ok', L.compare(c, op[0], mop[1], op[2] if len(op) > 2 else 'dict'))
-            except RecursionError:
-                real = ('exc', 'RecursionError')
+            real = _compare_cur(c, op, mop)
             post = None
         else:
             real, post = L.exec_op(c, op, ctx)
